@@ -29,18 +29,18 @@ func (a Arch) MarshalControl() (string, error) {
 }
 
 func (a Arch) String() string {
-	/* ABI-OS-CPU -- gnu-linux-amd64 */
-	els := []string{}
-	if a.ABI != "any" && a.ABI != "all" && a.ABI != "gnu" && a.ABI != "" {
-		els = append(els, a.ABI)
+	/* ABI-OS-CPU -- gnu-linux-amd64; the shortest name that ParseArch maps
+	 * back to the same triple. */
+	wild := a.CPU == "any" || a.CPU == "all"
+	switch {
+	case wild && a.ABI == a.CPU && a.OS == a.CPU:
+		return a.CPU
+	case !wild && !strings.Contains(a.CPU, "-") && a.OS == "linux" && a.ABI == "gnu":
+		return a.CPU
+	case !strings.Contains(a.CPU, "-") && a.ABI == "any":
+		return a.OS + "-" + a.CPU
 	}
-
-	if a.OS != "any" && a.OS != "all" && a.OS != "linux" {
-		els = append(els, a.OS)
-	}
-
-	els = append(els, a.CPU)
-	return strings.Join(els, "-")
+	return a.ABI + "-" + a.OS + "-" + a.CPU
 }
 
 func (set ArchSet) String() string {
